@@ -185,12 +185,15 @@ upsD OBJECT IDENTIFIER ::= { nowhereFour 4 }
 END
 """
 
-INPUTS = [('V_TWOENT', 'TAU-MIB', V_TWOENT), ('E_TWOPARENTS', 'UPSILON-MIB', E_TWOPARENTS), ('V_SAMENAMES', 'SIGMA-MIB', V_SAMENAMES), ('V_MODE_INT', 'PI-MIB', V_MODE_INT), ('V_MODE_OCT', 'RHO-MIB', V_MODE_OCT), ('E_UNKTYPE', 'NU-MIB', E_UNKTYPE), ('E_UNKPARENT', 'XI-MIB', E_UNKPARENT), ('E_GEN', 'OMICRON-MIB', E_GEN),
+# the text of ALPHA-MIB as a later edition has it: the same module, the same symbols, registered under another arc
+V_REV_MOVED = V_REV.replace('{ enterprises 1111 }', '{ enterprises 7777 }').replace('"Alpha"', '"Alpha, moved"')
+
+INPUTS = [('V_REV_MOVED', 'ALPHA-MIB', V_REV_MOVED), ('V_TWOENT', 'TAU-MIB', V_TWOENT), ('E_TWOPARENTS', 'UPSILON-MIB', E_TWOPARENTS), ('V_SAMENAMES', 'SIGMA-MIB', V_SAMENAMES), ('V_MODE_INT', 'PI-MIB', V_MODE_INT), ('V_MODE_OCT', 'RHO-MIB', V_MODE_OCT), ('E_UNKTYPE', 'NU-MIB', E_UNKTYPE), ('E_UNKPARENT', 'XI-MIB', E_UNKPARENT), ('E_GEN', 'OMICRON-MIB', E_GEN),
           ('V_REV', 'ALPHA-MIB', V_REV), ('V_NOID', 'BETA-MIB', V_NOID), ('V_TBL', 'GAMMA-MIB', V_TBL), ('V_V1', 'DELTA-MIB', V_V1),
           ('V_IMP', 'EPSILON-MIB', V_IMP), ('V_NOENT', 'ZETA-MIB', V_NOENT), ('E_LEX4', 'ETA-MIB', E_LEX4),
           ('E_MACRO', 'THETA-MIB', E_MACRO), ('V_COMMENT', 'IOTA-MIB', V_COMMENT), ('E_TRUNC', 'KAPPA-MIB', E_TRUNC),
           ('E_SYN', 'LAMBDA-MIB', E_SYN), ('E_DUP', 'MU-MIB', E_DUP)]
-TEXTS = dict((name, text) for _, name, text in INPUTS)
+TEXTS = dict((name, text) for label, name, text in INPUTS if label != 'V_REV_MOVED')
 DIALECT = 'smiV1Relaxed'
 
 
@@ -267,6 +270,7 @@ def make_compiler(backend, written):
     texts.update(TEXTS)
     comp.addSources(env.DictReader(texts))
     comp.addSearchers(env.StubSearcher(*env.BASE_NAMES))
+    comp._mc_texts = texts
     return comp
 
 
@@ -291,12 +295,20 @@ def status_obs(res):
     return json.dumps(out, sort_keys=True)
 
 
-def compile_obs(comp, written, name):
+def compile_obs(comp, written, name, text=None):
+    """text: what the source holds under that name for the duration of this call (the file was edited in between)."""
     del written[:]
+    texts = getattr(comp, '_mc_texts', None)
+    old = texts.get(name) if texts is not None else None
+    if text is not None and texts is not None:
+        texts[name] = text
     try:
         res = comp.compile(name, genTexts=True)
     except Exception as exc:
         return ('escaped', type(exc).__name__)
+    finally:
+        if text is not None and texts is not None:
+            texts[name] = old
     comp_last[0] = res
     return status_obs(res), tuple(sorted(written))
 
@@ -317,7 +329,7 @@ def fresh_obs(level, idx):
             _fresh[key] = g.feed(name, text)
         else:
             w = []
-            _fresh[key] = compile_obs(make_compiler(level.split(':')[1], w), w, name)
+            _fresh[key] = compile_obs(make_compiler(level.split(':')[1], w), w, name, text)
     return _fresh[key]
 
 
@@ -350,16 +362,20 @@ class Histories(object):
         elif level.startswith('gens'):
             g = Gens(level.split(':')[1])
             loaded = set()
+            alpha_edition = [None]
 
             def step(i):
                 _, name, text = INPUTS[i]
-                if name == 'EPSILON-MIB' and 'ALPHA-MIB' not in g.table:
-                    g.feed('ALPHA-MIB', V_REV, base=True)
+                if name == 'EPSILON-MIB' and alpha_edition[0] != 'V_REV':
+                    g.feed('ALPHA-MIB', V_REV, base=True)   # (its dependency, in the edition the sources hold)
+                    alpha_edition[0] = 'V_REV'
+                if name == 'ALPHA-MIB':
+                    alpha_edition[0] = INPUTS[i][0]
                 return g.feed(name, text)
         else:
             w = []
             comp = make_compiler(level.split(':')[1], w)
-            step = lambda i: compile_obs(comp, w, INPUTS[i][1])
+            step = lambda i: compile_obs(comp, w, INPUTS[i][1], INPUTS[i][2])
         kept = []
         for pos, i in enumerate(seq):
             got = step(i)
@@ -403,7 +419,7 @@ for backend in ('json', 'pysnmp'):
     for idx, (label, name, text) in enumerate(C12.INPUTS):
         w = []
         comp = C12.make_compiler(backend, w)
-        obs = C12.compile_obs(comp, w, name)
+        obs = C12.compile_obs(comp, w, name, text)
         out['%%s:%%s' %% (backend, label)] = hashlib.sha1(repr(obs).encode()).hexdigest()
         if label in ('V_REV', 'V_TBL'):
             # the text itself, for diagnosis
